@@ -21,7 +21,8 @@
 //                                reset pin `rst`); first line after `trace`: `meta classic=0|1 clkport=<name> edges=<R|F|B...>`
 //                                (classic = single clock pin, rising edge only, ONE reset kind/polarity/pin for all clocked nodes: what the certificate checker's
 //                                circuit model covers).  The recorded test vectors use the half-period stimulus 0 as well.
-// design-program extensions:  clockcfg ..  |  clockdef NAME [rising|falling|both] [sync|async|none] [high|low] [rst RESETNAME]
+// design-program extensions:  clockcfg ..  |  rootclock NAME div=N [name=X] ...  (second ROOT clock, own pin, unnamed = "sysclk" again)
+//                             |  clockdef NAME [from=CLK] [mult=N|div=N (own pin, keeps the parent's name)] [name=X] [rising|falling|both] [sync|async|none] [high|low] [rst RESETNAME]
 //                             (a clock derived from the design clock on the SAME clock pin)  |  clk NAME ... endclk (ClockScope)
 // A design that cannot be built/exported gets "SKIP <id> <reason>" in .net/.trace.
 #include "netdump.h"
@@ -61,6 +62,7 @@ public:
 		auto setU = [&](const std::string &n, const UInt &v) { auto p = std::make_shared<nd::Val>(); p->v.emplace<UInt>(v); b.vars[n] = p; };
 		if (op == "clockdef") {
 			ClockConfig cfg;
+			Clock *parent = mainClock;
 			for (size_t i = 2; i < t.size(); i++) {
 				if (t[i] == "falling") cfg.triggerEvent = ClockConfig::TriggerEvent::FALLING;
 				else if (t[i] == "rising") cfg.triggerEvent = ClockConfig::TriggerEvent::RISING;
@@ -71,9 +73,28 @@ public:
 				else if (t[i] == "high") cfg.resetActive = ClockConfig::ResetActive::HIGH;
 				else if (t[i] == "low") cfg.resetActive = ClockConfig::ResetActive::LOW;
 				else if (t[i] == "rst" && i + 1 < t.size()) cfg.resetName = t[++i];
+				else if (t[i].rfind("mult=", 0) == 0) cfg.frequencyMultiplier = hlim::ClockRational(std::stoull(t[i].substr(5)), 1);   // own clock PIN, keeps the parent's name
+				else if (t[i].rfind("div=", 0) == 0) cfg.frequencyMultiplier = hlim::ClockRational(1, std::stoull(t[i].substr(4)));
+				else if (t[i].rfind("name=", 0) == 0) cfg.name = t[i].substr(5);
+				else if (t[i].rfind("from=", 0) == 0) parent = t[i].substr(5) == "main" ? mainClock : clocks.at(t[i].substr(5)).get();
 				else throw std::runtime_error("clockdef option " + t[i]);
 			}
-			clocks[t[1]] = std::make_unique<Clock>(mainClock->deriveClock(cfg));
+			clocks[t[1]] = std::make_unique<Clock>(parent->deriveClock(cfg));
+		} else if (op == "rootclock") {   // rootclock NAME div=N [name=X] [falling] [sync|async|none] [high|low] [rst RESETNAME]: a second ROOT clock of 100 MHz / N (unnamed = "sysclk" again)
+			ClockConfig cfg; cfg.absoluteFrequency = hlim::ClockRational(100'000'000);
+			for (size_t i = 2; i < t.size(); i++) {
+				if (t[i].rfind("div=", 0) == 0) cfg.absoluteFrequency = hlim::ClockRational(100'000'000, std::stoull(t[i].substr(4)));
+				else if (t[i].rfind("name=", 0) == 0) cfg.name = t[i].substr(5);
+				else if (t[i] == "falling") cfg.triggerEvent = ClockConfig::TriggerEvent::FALLING;
+				else if (t[i] == "sync") cfg.resetType = ClockConfig::ResetType::SYNCHRONOUS;
+				else if (t[i] == "async") cfg.resetType = ClockConfig::ResetType::ASYNCHRONOUS;
+				else if (t[i] == "none") cfg.resetType = ClockConfig::ResetType::NONE;
+				else if (t[i] == "high") cfg.resetActive = ClockConfig::ResetActive::HIGH;
+				else if (t[i] == "low") cfg.resetActive = ClockConfig::ResetActive::LOW;
+				else if (t[i] == "rst" && i + 1 < t.size()) cfg.resetName = t[++i];
+				else throw std::runtime_error("rootclock option " + t[i]);
+			}
+			clocks[t[1]] = std::make_unique<Clock>(cfg);
 		} else if (op == "clk") {
 			clockStack.push_back(std::make_unique<ClockScope>(*clocks.at(t[1])));
 		} else if (op == "endclk") {
@@ -157,15 +178,21 @@ struct NamedObserver : public sim::SimulatorCallbacks {
 		auto it = resetNames.find(clock);
 		events.push_back(std::string("R") + (level ? "1" : "0") + "@" + (it == resetNames.end() ? std::string("?") : it->second));
 	}
-	virtual void onClock(const hlim::Clock *clock, bool risingEdge) override { events.push_back(risingEdge ? "E" : "e"); }
+	std::map<const hlim::Clock*, std::string> clockNames;     // exported port name per clock pin (events are named only with several pins)
+	virtual void onClock(const hlim::Clock *clock, bool risingEdge) override {
+		std::string e = risingEdge ? "E" : "e";
+		if (clockNames.size() > 1) { auto it = clockNames.find(clock); e += "@" + (it == clockNames.end() ? std::string("?") : it->second); }
+		events.push_back(e);
+	}
 };
 
-// like nd::runTrace, but one sample per HALF period
-static void runHalfTrace(hlim::Circuit &circuit, hlim::ClockRational period, const std::vector<std::vector<std::string>> &stim, std::ostream &o,
-                         const std::string &tag, const std::string &meta, const std::map<const hlim::Clock*, std::string> &resetNames) {
+// like nd::runTrace, but one sample per `step` (= half period of the fastest clock pin), first sample at step/2
+static void runHalfTrace(hlim::Circuit &circuit, hlim::ClockRational step, const std::vector<std::vector<std::string>> &stim, std::ostream &o,
+                         const std::string &tag, const std::string &meta, const std::map<const hlim::Clock*, std::string> &resetNames,
+                         const std::map<const hlim::Clock*, std::string> &clockNames) {
 	nd::Pins pins = nd::findPins(circuit);
 	sim::ReferenceSimulator sim(false);
-	NamedObserver obs; obs.resetNames = resetNames;
+	NamedObserver obs; obs.resetNames = resetNames; obs.clockNames = clockNames;
 	sim.addCallbacks(&obs);
 	sim.compileProgram(circuit);
 	sim.powerOn();
@@ -174,7 +201,7 @@ static void runHalfTrace(hlim::Circuit &circuit, hlim::ClockRational period, con
 	o << " out";
 	for (auto *p : pins.outs) o << " " << p->getName() << ":" << p->getConnectionType().width;
 	o << "\n";
-	sim.advance(period / 4ull);
+	sim.advance(step / 2ull);
 	for (size_t cyc = 0; cyc < stim.size(); cyc++) {
 		o << "ev";
 		for (auto &e : obs.events) o << " " << e;
@@ -191,7 +218,7 @@ static void runHalfTrace(hlim::Circuit &circuit, hlim::ClockRational period, con
 			o << " " << nd::bitsOrE(sim.getValueOfOutput(drv));
 		}
 		o << "\n";
-		sim.advance(period / 2ull);
+		sim.advance(step);
 	}
 	o << "endtrace\n";
 }
@@ -262,16 +289,6 @@ int main(int argc, char **argv) {
 				stims.push_back(stim);
 			}
 
-			// half-period stimuli (2*cycles samples); in replay mode only if the stimulus was given as H:
-			std::vector<std::vector<std::vector<std::string>>> hstims;
-			bool replayHalf = mode == "replay" && halfStim.count(prog.id);
-			if (replayHalf) { hstims = stims; stims.clear(); }
-			else if (mode != "replay") for (size_t k = 0; k < nStim; k++) {
-				vh::Rng rng(seed * 7000003ull + std::hash<std::string>{}(prog.id) * 37ull + k);
-				std::vector<std::vector<std::string>> stim(2 * cycles);
-				for (auto &cyc : stim) for (auto *p : pins.ins) cyc.push_back(randBits(rng, p->getConnectionType().width, (int)(k % 3)));
-				hstims.push_back(stim);
-			}
 			// which clocking does the design use?
 			std::set<const hlim::Clock*> clkPins, rstPins; std::string edges;
 			std::set<std::tuple<int, int, const hlim::Clock*>> rstCfgs;   // (reset kind, polarity, reset pin) per clocked node
@@ -286,7 +303,23 @@ int main(int argc, char **argv) {
 			bool classic = clkPins.size() <= 1 && rstPins.size() <= 1 && rstCfgs.size() <= 1 && (edges.empty() || edges == "R");
 			std::map<const hlim::Clock*, std::string> resetNames;
 			std::string clkPort = "-";
+			std::map<const hlim::Clock*, std::string> clockNames;
+			// sampling step: half period of the fastest clock pin; slower pins get proportionally more samples (at most 8x)
+			hlim::ClockRational step = period / 2ull, slowest = period / 2ull;
+			for (auto *c : clkPins) { auto h = hlim::ClockRational(1, 2) / c->absoluteFrequency(); if (h < step) step = h; if (h > slowest) slowest = h; }
+			size_t ratio = (size_t)((slowest / step).numerator() / (slowest / step).denominator());
+			const size_t nSamples = 2 * cycles * std::min<size_t>(std::max<size_t>(ratio, 1), 8);
 
+			// half-period stimuli (2*cycles samples); in replay mode only if the stimulus was given as H:
+			std::vector<std::vector<std::vector<std::string>>> hstims;
+			bool replayHalf = mode == "replay" && halfStim.count(prog.id);
+			if (replayHalf) { hstims = stims; stims.clear(); }
+			else if (mode != "replay") for (size_t k = 0; k < nStim; k++) {
+				vh::Rng rng(seed * 7000003ull + std::hash<std::string>{}(prog.id) * 37ull + k);
+				std::vector<std::vector<std::string>> stim(nSamples);
+				for (auto &cyc : stim) for (auto *p : pins.ins) cyc.push_back(randBits(rng, p->getConnectionType().width, (int)(k % 3)));
+				hstims.push_back(stim);
+			}
 			// ---- export with the test-bench recorder attached to a simulator driven by a simulation process ----
 			{
 				sim::ReferenceSimulator sim(false);
@@ -305,18 +338,19 @@ int main(int argc, char **argv) {
 				// names the exporter gave to the clock / reset ports of the root entity
 				{
 					auto *root = vhdl.getAST()->getRootEntity();
-					for (auto *c : root->getClocks()) if (c->isSelfDriven(false, true)) clkPort = root->getNamespaceScope().getClock(c).name;
+					for (auto *c : root->getClocks()) if (c->isSelfDriven(false, true)) { clockNames[c] = root->getNamespaceScope().getClock(c).name; if (clkPort == "-") clkPort = clockNames[c]; }
 					for (auto *c : root->getResets()) if (c->isSelfDriven(false, false)) resetNames[c] = root->getNamespaceScope().getReset(c).name;
 				}
 
 				const bool tvHalf = !hstims.empty();
-				const hlim::ClockRational tvStep = tvHalf ? period / 2ull : period;
+				const hlim::ClockRational tvStep = tvHalf ? step : period;
+				const hlim::ClockRational tvStart = tvHalf ? step / 2ull : period / 4ull;
 				if (!stims.empty() || tvHalf) {
 					const auto &stim = tvHalf ? hstims[0] : stims[0];
 					auto *simp = &sim;
 					auto *tb = &tbtrace;
 					sim.addSimulationProcess([=, &stim]() -> SimProcess {
-						co_await WaitFor(period / 4ull);
+						co_await WaitFor(tvStart);
 						for (size_t cyc = 0; cyc < stim.size(); cyc++) {
 							for (size_t i = 0; i < pins.ins.size(); i++)
 								setPin(*simp, pins.ins[i], i < stim[cyc].size() ? stim[cyc][i] : std::string());
@@ -333,7 +367,7 @@ int main(int argc, char **argv) {
 					});
 					sim.compileProgram(design.getCircuit());
 					sim.powerOn();
-					sim.advance(period / 4ull + tvStep * (uint64_t)stim.size() + period / 8ull);
+					sim.advance(tvStart + tvStep * (uint64_t)stim.size() + tvStep / 4ull);
 				} else {
 					sim.compileProgram(design.getCircuit());
 					sim.powerOn();
@@ -341,13 +375,15 @@ int main(int argc, char **argv) {
 				// VHDLExport's destructor flushes the recorder
 			}
 			{
-				std::string meta = std::string("classic=") + (classic ? "1" : "0") + " clkport=" + clkPort + " edges=" + (edges.empty() ? std::string("-") : edges) + " resets=";
+				std::string cps;
+				for (auto &c : clockNames) cps += (cps.empty() ? "" : ",") + c.second;
+				std::string meta = std::string("classic=") + (classic ? "1" : "0") + " clkport=" + clkPort + " clkports=" + (cps.empty() ? std::string("-") : cps) + " edges=" + (edges.empty() ? std::string("-") : edges) + " resets=";
 				bool first = true;
 				for (auto &r : resetNames) { meta += (first ? "" : ",") + r.second + ":" + (r.first->getRegAttribs().resetActive == hlim::RegisterAttributes::Active::HIGH ? "1" : "0"); first = false; }
 				if (first) meta += "-";
 				std::ofstream(base + ".meta") << meta << "\n";
 				for (size_t k = 0; k < hstims.size(); k++)
-					runHalfTrace(design.getCircuit(), period, hstims[k], htrace, prog.id + " " + (mode == "replay" ? std::string("replay") : "h" + std::to_string(k)), meta, resetNames);
+					runHalfTrace(design.getCircuit(), step, hstims[k], htrace, prog.id + " " + (mode == "replay" ? std::string("replay") : "h" + std::to_string(k)), meta, resetNames, clockNames);
 			}
 			for (size_t k = 0; k < stims.size(); k++)
 				nd::runTrace(design.getCircuit(), period, stims[k], trace, prog.id + " " + (mode == "replay" ? std::string("replay") : std::to_string(k)));
